@@ -150,7 +150,7 @@ func (s *Specs) sortByName(n string) (Sort, error) {
 }
 
 var clauseKeywords = map[string]bool{"func": true, "lib": true, "iface": true, "model": true, "ghostmodel": true, "ufun": true, "def": true, "axiom": true, "const": true,
-	"requires": true, "ensures": true, "assigns": true, "pure": true, "readonly": true, "inline": true, "loop": true, "sink": true, "at": true, "after": true,
+	"requires": true, "ensures": true, "assigns": true, "pure": true, "readonly": true, "inline": true, "loop": true, "sink": true, "at": true, "after": true, "never": true,
 	"trusted": true, "alias": true, "returns": true, "also": true, "like": true, "fresh": true, "panics": true, "props": true, "sort": true, "params": true, "constglobal": true, "ghost": true, "gosort": true, "lockinv": true, "guarded": true, "stable": true}
 
 // loadSpecFile parses one contract/spec file. Lines may carry a "//@" prefix (Go comment-only contract files).
@@ -468,6 +468,18 @@ func (s *Specs) loadSpecFile(path string) error {
 				default:
 					return fmt.Errorf("%s: bad loop clause kind %q", where, f[1])
 				}
+			case "never":
+				// never Callee [Pn,...]: no call of Callee in the function or in helpers inlined into it
+				f := strings.Fields(rest)
+				if len(f) < 1 {
+					return fmt.Errorf("%s: bad never clause", where)
+				}
+				c, err := mkClause(strings.TrimSpace(strings.TrimPrefix(rest, f[0])) + " false")
+				if err != nil {
+					return err
+				}
+				c.Src = "never " + rest
+				cur.Sites = append(cur.Sites, SiteSpec{Callee: f[0], Kind: "never", Cl: c})
 			case "sink", "at", "after":
 				// sink Callee#n requires E   |  at Callee#n assert E
 				f := strings.Fields(rest)
